@@ -3,8 +3,9 @@
 (* The life of one saml.IdpAuthnRequest value after validation: the calls  *)
 (* an application (or ServeSSO) makes on it - MakeAssertionEl,             *)
 (* MakeResponse, PostBinding, WriteResponse - in any order, any number of  *)
-(* times, with a failure of the encryption step injected into any call     *)
-(* (the random source of xmlenc fails once).  The value caches what it     *)
+(* times, with a fault injected into any call: the random source of the    *)
+(* encryption step fails once, or the IdP's external signer fails at the   *)
+(* first / second signature of the call.  The value caches what it     *)
 (* built (AssertionEl, ResponseEl); C08 and C06 must hold for whatever is  *)
 (* eventually emitted, not only for the single call ServeSSO makes.        *)
 (*                                                                         *)
@@ -22,39 +23,45 @@ VARIABLES enc,    \* the selected role of the SP advertises an encryption certif
           bind,   \* binding of the selected assertion consumer service: "post" | "artifact"
           aEl,    \* req.AssertionEl: "nil" | "plain" | "enc"
           rEl,    \* what req.ResponseEl carries: "nil" | "plain" | "enc"
-          hist    \* <<[c, f, fired, out, content]>>: call, fault armed, fault hit the encryption step, outcome ok / err / form, content of the form
+          hist    \* <<[c, f, fired, out, content]>>: call, fault armed (none / enc / sig1 / sig2), whether it fired, outcome ok / err / form, content of the form
 vars == <<enc, bind, aEl, rEl, hist>>
 
 Init == /\ enc \in BOOLEAN /\ bind \in {"post", "artifact"}
         /\ aEl = "nil" /\ rEl = "nil" /\ hist = <<>>
 
-\* MakeAssertionEl on the current value: <<ok, new aEl>>
-MkA(f) == IF enc THEN (IF f THEN <<FALSE, aEl>> ELSE <<TRUE, "enc">>) ELSE <<TRUE, "plain">>
-\* MakeResponse: builds the assertion element only if none is cached
-MkR(f) == LET a == IF aEl = "nil" THEN MkA(f) ELSE <<TRUE, aEl>>
-          IN IF a[1] THEN [ok |-> TRUE, a |-> a[2], r |-> a[2]] ELSE [ok |-> FALSE, a |-> aEl, r |-> rEl]
+\* Faults (one-shot, armed for one call): "enc" - the random source of the encryption step fails; "sig1" / "sig2" -
+\* the first / second signature operation of the call fails (an external crypto.Signer that errors once).
+Faults == {"none", "enc", "sig1", "sig2"}
+
+\* MakeAssertionEl on the current value: signs the assertion (first signature of the call), then encrypts it
+MkA(F) == IF F = "sig1" THEN [ok |-> FALSE, a |-> aEl, fired |-> TRUE]
+          ELSE IF enc THEN (IF F = "enc" THEN [ok |-> FALSE, a |-> aEl, fired |-> TRUE] ELSE [ok |-> TRUE, a |-> "enc", fired |-> FALSE])
+          ELSE [ok |-> TRUE, a |-> "plain", fired |-> FALSE]
+\* MakeResponse: builds the assertion element only if none is cached, then signs the response
+MkR(F) == IF aEl = "nil"
+            THEN LET x == MkA(F) IN
+                 IF ~x.ok THEN [ok |-> FALSE, a |-> aEl, r |-> rEl, fired |-> TRUE]
+                 ELSE IF F = "sig2" THEN [ok |-> FALSE, a |-> x.a, r |-> rEl, fired |-> TRUE]   \* the assertion element stays cached
+                 ELSE [ok |-> TRUE, a |-> x.a, r |-> x.a, fired |-> FALSE]
+            ELSE IF F = "sig1" THEN [ok |-> FALSE, a |-> aEl, r |-> rEl, fired |-> TRUE]
+                 ELSE [ok |-> TRUE, a |-> aEl, r |-> aEl, fired |-> FALSE]
 \* PostBinding / WriteResponse: build the response only if none is cached
-Post(f) == LET m == IF rEl = "nil" THEN MkR(f) ELSE [ok |-> TRUE, a |-> aEl, r |-> rEl]
-           IN IF ~m.ok THEN [out |-> "err", a |-> m.a, r |-> m.r, content |-> "none"]
-              ELSE IF bind # "post" THEN [out |-> "err", a |-> m.a, r |-> m.r, content |-> "none"]
-              ELSE [out |-> "form", a |-> m.a, r |-> m.r, content |-> m.r]
+Post(F) == LET m == IF rEl = "nil" THEN MkR(F) ELSE [ok |-> TRUE, a |-> aEl, r |-> rEl, fired |-> FALSE]
+           IN IF ~m.ok THEN [out |-> "err", a |-> m.a, r |-> m.r, content |-> "none", fired |-> m.fired]
+              ELSE IF bind # "post" THEN [out |-> "err", a |-> m.a, r |-> m.r, content |-> "none", fired |-> m.fired]
+              ELSE [out |-> "form", a |-> m.a, r |-> m.r, content |-> m.r, fired |-> m.fired]
 
-\* does this call reach the encryption step in the current state ?
-Encrypts(c) == enc /\ CASE c = "MakeAssertionEl" -> TRUE
-                        [] c = "MakeResponse"    -> aEl = "nil"
-                        [] OTHER                 -> rEl = "nil" /\ aEl = "nil"
-
-Call(c, f) ==
+Call(c, F) ==
   /\ Len(hist) < MaxCalls
-  /\ f => enc                       \* the fault is a failure of the encryption step
-  /\ LET res == CASE c = "MakeAssertionEl" -> LET a == MkA(f) IN [out |-> IF a[1] THEN "ok" ELSE "err", a |-> a[2], r |-> rEl, content |-> "none"]
-                  [] c = "MakeResponse"    -> LET m == MkR(f) IN [out |-> IF m.ok THEN "ok" ELSE "err", a |-> m.a, r |-> m.r, content |-> "none"]
-                  [] OTHER                 -> Post(f)
+  /\ F = "enc" => enc               \* that fault is a failure of the encryption step
+  /\ LET res == CASE c = "MakeAssertionEl" -> LET a == MkA(F) IN [out |-> IF a.ok THEN "ok" ELSE "err", a |-> a.a, r |-> rEl, content |-> "none", fired |-> a.fired]
+                  [] c = "MakeResponse"    -> LET m == MkR(F) IN [out |-> IF m.ok THEN "ok" ELSE "err", a |-> m.a, r |-> m.r, content |-> "none", fired |-> m.fired]
+                  [] OTHER                 -> Post(F)
      IN /\ aEl' = res.a /\ rEl' = res.r
-        /\ hist' = Append(hist, [c |-> c, f |-> f, fired |-> f /\ Encrypts(c), out |-> res.out, content |-> res.content])
+        /\ hist' = Append(hist, [c |-> c, f |-> F, fired |-> res.fired, out |-> res.out, content |-> res.content])
   /\ UNCHANGED <<enc, bind>>
 
-Next == \E c \in Calls, f \in BOOLEAN : Call(c, f)
+Next == \E c \in Calls, F \in Faults : Call(c, F)
 Spec == Init /\ [][Next]_vars
 
 (******************************** properties *******************************)
@@ -65,8 +72,14 @@ NeverInClear == hist # <<>> /\ Last.out = "form" /\ enc => Last.content = "enc"
 NoClearCache == enc => aEl # "plain" /\ rEl # "plain"
 \* C06 (as the code has it): a form is emitted only towards an HTTP-POST endpoint
 FormOnlyToPost == hist # <<>> /\ Last.out = "form" => bind = "post"
-\* a failed call changes nothing, so a retry starts from the same state
-FailedCallIsNoop == [][ hist' # hist /\ hist'[Len(hist')].fired => hist'[Len(hist')].out = "err" /\ aEl' = aEl /\ rEl' = rEl ]_vars
+\* a call in which a fault fired fails and never leaves a response behind; the only thing it may leave is the
+\* finished assertion element (when the response signature failed after the assertion had been built)
+FailedCallIsNoop == [][ hist' # hist /\ hist'[Len(hist')].fired =>
+                          /\ hist'[Len(hist')].out = "err" /\ rEl' = rEl
+                          /\ (aEl' # aEl => hist'[Len(hist')].f = "sig2" /\ aEl = "nil") ]_vars
+\* the cached response is built around the cached assertion element (both signed: no state of this model holds an
+\* unsigned element - the harness verifies both signatures of everything that is emitted)
+Coherent == rEl # "nil" => rEl = aEl
 
 Emit == hist # <<>> => PrintT(<<"HIST", ToJson([enc |-> enc, bind |-> bind, hist |-> hist])>>)
 =============================================================================
